@@ -439,3 +439,105 @@ Qed.
 
 Lemma val_eqb_VT2 a b a' b' : val_eqb (VT [a; b]) (VT [a'; b']) = val_eqb a a' && val_eqb b b'.
 Proof. cbn [val_eqb]. rewrite andb_true_r. reflexivity. Qed.
+
+(** * Comprehensions *)
+Lemma comp_list_map f (g : val -> val) vs :
+  (forall v, In v vs -> f v = Some (Some (g v))) -> comp_loop CList f vs = Some (Some (VL (map g vs))).
+Proof.
+  induction vs as [|x t IH]; intros H; [reflexivity|].
+  cbn [comp_loop map]. rewrite (H x (or_introl eq_refl)), IH; [reflexivity|].
+  intros v Hv. apply H. right. exact Hv.
+Qed.
+
+Lemma comp_all_forallb f (p : val -> bool) vs :
+  (forall v, In v vs -> f v = Some (Some (VB (p v)))) -> comp_loop CAll f vs = Some (Some (VB (forallb p vs))).
+Proof.
+  induction vs as [|x t IH]; intros H; [reflexivity|].
+  cbn [comp_loop forallb]. rewrite (H x (or_introl eq_refl)). cbn [truthy].
+  destruct (p x); [|reflexivity]. apply IH. intros v Hv. apply H. right. exact Hv.
+Qed.
+
+Lemma comp_any_existsb f (p : val -> bool) vs :
+  (forall v, In v vs -> f v = Some (Some (VB (p v)))) -> comp_loop CAny f vs = Some (Some (VB (existsb p vs))).
+Proof.
+  induction vs as [|x t IH]; intros H; [reflexivity|].
+  cbn [comp_loop existsb]. rewrite (H x (or_introl eq_refl)). cbn [truthy].
+  destruct (p x); [reflexivity|]. apply IH. intros v Hv. apply H. right. exact Hv.
+Qed.
+
+(** == on shapes (tuples of naturals) *)
+Lemma all_num_vnat l : forallb (fun v => match v with VZ _ | VQ _ => true | _ => false end) (map vnat l) = true.
+Proof. induction l as [|x t IH]; [reflexivity|]. cbn [map forallb]. rewrite IH. reflexivity. Qed.
+
+Lemma tuple_eqb_vnat a : forall b, tuple_eqb (map vnat a) (map vnat b) = Some (Verdict.list_eqb Nat.eqb a b).
+Proof.
+  induction a as [|x a IH]; intros [|y b]; try reflexivity.
+  - change (tuple_eqb (map vnat []) (map vnat (y :: b)))
+      with (if forallb (fun v => match v with VZ _ | VQ _ => true | _ => false end) ([] ++ map vnat (y :: b))
+            then Some false else None).
+    cbn [app]. rewrite all_num_vnat. reflexivity.
+  - change (tuple_eqb (map vnat (x :: a)) (map vnat []))
+      with (if forallb (fun v => match v with VZ _ | VQ _ => true | _ => false end) (map vnat (x :: a) ++ [])
+            then Some false else None).
+    rewrite app_nil_r, all_num_vnat. reflexivity.
+  - cbn [map tuple_eqb Verdict.list_eqb]. rewrite IH. unfold vnat at 1 2. cbn [cmp_scalar].
+    rewrite Zeqb_of_nat. reflexivity.
+Qed.
+
+Lemma cmp_val_shape op a b :
+  cmp_val op (VT (map vnat a)) (VT (map vnat b)) =
+  match op with
+  | CEq => Some (Verdict.list_eqb Nat.eqb a b)
+  | CNe => Some (negb (Verdict.list_eqb Nat.eqb a b))
+  | _ => None
+  end.
+Proof. cbn [cmp_val]. rewrite tuple_eqb_vnat. destruct op; reflexivity. Qed.
+
+(** the same over [map g l] *)
+Lemma comp_list_map' {A} f (g : A -> val) (h : A -> val) (l : list A) :
+  (forall a, In a l -> f (g a) = Some (Some (h a))) -> comp_loop CList f (map g l) = Some (Some (VL (map h l))).
+Proof.
+  induction l as [|x t IH]; intros H; [reflexivity|].
+  cbn [comp_loop map]. rewrite (H x (or_introl eq_refl)), IH; [reflexivity|].
+  intros a Ha. apply H. right. exact Ha.
+Qed.
+
+Lemma comp_all_forallb' {A} f (g : A -> val) (p : A -> bool) (l : list A) :
+  (forall a, In a l -> f (g a) = Some (Some (VB (p a)))) -> comp_loop CAll f (map g l) = Some (Some (VB (forallb p l))).
+Proof.
+  induction l as [|x t IH]; intros H; [reflexivity|].
+  cbn [comp_loop forallb map]. rewrite (H x (or_introl eq_refl)). cbn [truthy].
+  destruct (p x); [|reflexivity]. apply IH. intros a Ha. apply H. right. exact Ha.
+Qed.
+
+Lemma comp_any_existsb' {A} f (g : A -> val) (p : A -> bool) (l : list A) :
+  (forall a, In a l -> f (g a) = Some (Some (VB (p a)))) -> comp_loop CAny f (map g l) = Some (Some (VB (existsb p l))).
+Proof.
+  induction l as [|x t IH]; intros H; [reflexivity|].
+  cbn [comp_loop existsb map]. rewrite (H x (or_introl eq_refl)). cbn [truthy].
+  destruct (p x); [reflexivity|]. apply IH. intros a Ha. apply H. right. exact Ha.
+Qed.
+
+Lemma forallb_map' {A B} (f : B -> bool) (g : A -> B) l : forallb f (map g l) = forallb (fun x => f (g x)) l.
+Proof. induction l; cbn; congruence. Qed.
+
+Lemma existsb_negb_forallb {A} (p : A -> bool) l : existsb (fun x => negb (p x)) l = negb (forallb p l).
+Proof. induction l as [|x t IH]; [reflexivity|]. cbn [existsb forallb]. rewrite IH. destruct (p x); reflexivity. Qed.
+
+Lemma forallb_ext_in {A} (p q : A -> bool) l : (forall x, In x l -> p x = q x) -> forallb p l = forallb q l.
+Proof.
+  induction l as [|x t IH]; intros H; [reflexivity|]. cbn [forallb].
+  rewrite (H x (or_introl eq_refl)), IH; [reflexivity|]. intros y Hy. apply H. right. exact Hy.
+Qed.
+
+Lemma existsb_ext_in {A} (p q : A -> bool) l : (forall x, In x l -> p x = q x) -> existsb p l = existsb q l.
+Proof.
+  induction l as [|x t IH]; intros H; [reflexivity|]. cbn [existsb].
+  rewrite (H x (or_introl eq_refl)), IH; [reflexivity|]. intros y Hy. apply H. right. exact Hy.
+Qed.
+
+Lemma concat_repeat_1 {A} (x : A) n : List.concat (repeat [x] n) = repeat x n.
+Proof. induction n; cbn; congruence. Qed.
+
+Lemma comp_raise_first k f v t : f v = Some None -> comp_loop k f (v :: t) = Some None.
+Proof. intros H. cbn [comp_loop]. rewrite H. reflexivity. Qed.
